@@ -54,9 +54,30 @@ def artefact_diff():
             if got != expected:
                 d = [x for x in got if x not in expected] + [x for x in expected if x not in got]
                 diffs.append("%s does not match the token numbering of blackbird.g4: %s" % (nm, d[:4]))
+        diffs += cpp_switch_fallthroughs(os.path.join(cpp, "blackbirdParser.cpp"))
     except Exception as e:  # noqa: BLE001
         diffs.append("artefacts unreadable: %s" % e)
     return diffs
+
+
+def cpp_switch_fallthroughs(path):
+    """the C++ target renders the alternatives of a decision as `case X: { ... break; }` blocks: a block that does not end with
+    break / throw / return / continue runs on into the next alternative (the Python target has if / elif chains and cannot)"""
+    import re
+    text = open(path).read()
+    out = []
+    for m in re.finditer(r"case [^\n{}]*:\s*\{", text):
+        depth, i = 1, m.end()
+        while depth and i < len(text):
+            depth += {"{": 1, "}": -1}.get(text[i], 0)
+            i += 1
+        body = text[m.end():i - 1].strip()
+        last = body.rsplit(";", 2)[-2].strip() if body.count(";") >= 1 else body
+        rest = text[i:i + 80].lstrip()
+        if not re.search(r"(^|\W)(break|return[^;]*|continue|throw[^;]*)$", last) and not rest.startswith("default:\n      break;") and not re.match(r"default:\s*break;", rest):
+            line = text.count("\n", 0, m.start()) + 1
+            out.append("blackbirdParser.cpp line %d: the alternative `%s` does not leave its switch (it runs on into `%s`)" % (line, m.group(0).strip(" {"), rest[:40].replace("\n", " ")))
+    return out
 
 
 def sweep_cases(quick):
@@ -195,6 +216,15 @@ def run(tier, seed):
     art_broken = [b for b in res.broken if "ArtefactsP" in b or "AtnData" in b or "atn_to_coq" in b or "C14" in b]
     if art_broken:
         for d in artefact_diff():
+            res.violate(d, {"check": "artefacts", "detail": d}, kind="configuration")
+    # --- the C++ rule functions (no C++ runtime here: a structural scan): every alternative of a switch leaves it explicitly
+    try:
+        ft = cpp_switch_fallthroughs(os.path.join(fw.REPO, "blackbird_cpp", "blackbirdParser.cpp"))
+    except Exception as e:  # noqa: BLE001
+        ft = ["blackbirdParser.cpp unreadable: %s" % e]
+    res.oblige("C++ parser: the alternatives of every decision are exclusive (no case block runs on into the next)", "correspondence", not ft, "; ".join(ft[:2]))
+    for d in ft:
+        if not art_broken:
             res.violate(d, {"check": "artefacts", "detail": d}, kind="configuration")
     # --- differential part needs the model binary and a readable grammar
     if status.bbmodel_ok and "g4_to_coq" not in status.translator_errors:
